@@ -144,6 +144,7 @@ def run(ctx):
             for q in (':x', ':x:1', ':base', ':base:1'):
                 cases.append(([a, b], q))
     ctx.exhaustive = False
+    history_cases(ctx)
     calls = [[1, [u.encode() for u in uris], key.encode()] for uris, key in cases]
     outs = ctx.model.batch(calls) if ctx.model else [None] * len(cases)
     for (uris, key), mo in zip(cases, outs):
@@ -158,6 +159,60 @@ def run(ctx):
             ctx.disagree(case, model_decode(mo), im, 'Caps.getitem vs Capabilities.__getitem__', theorem='C08_total/C08_lookup_*')
         if im != sp:
             ctx.fail(case, 'lookup of %r in %r: implementation %r, property says %r' % (key, uris, im, sp),
+                     sig=None, expected=sp, actual=im)
+
+# ---------- histories of add / remove ----------
+def impl_history(uris, ops, key):
+    from ncclient.capabilities import Capabilities
+    try:
+        caps = Capabilities(uris)
+        for o, u in ops:
+            (caps.add if o == 'add' else caps.remove)(u)
+        c = caps[key]
+        r = ('found', c.namespace_uri, sorted(c.parameters.items()))
+    except KeyError:
+        r = ('KeyError',)
+    except Exception as e:
+        return ('exc', type(e).__name__)
+    try:
+        if (key in caps) != (r[0] == 'found'): return ('exc', 'contains-disagrees-with-getitem')
+    except Exception as e:
+        return ('exc', type(e).__name__)
+    return r
+
+def present_after(uris, ops):
+    ks = []
+    for u in uris:
+        if u not in ks: ks.append(u)
+    for o, u in ops:
+        if o == 'add':
+            if u not in ks: ks.append(u)
+        else:
+            ks = [k for k in ks if k != u]
+    return ks
+
+def history_cases(ctx):
+    rng = ctx.rng
+    pool = [':'.join(PA + ['base', '1.0']), ':'.join(PA + ['base', '1.1']), ':'.join(PB + ['base', '1.0']),
+            ':'.join(PA + ['capability', 'candidate', '1.0']), ':'.join(PA + ['capability', 'candidate', '1.1']),
+            ':'.join(PB + ['capability', 'candidate', '1.0']), ':'.join(PA + ['capability', 'x', '1']) + '?a=b', 'http://example.com/m?module=m']
+    cases = []
+    for _ in range(1200 if ctx.tier == 'quick' else 15000):
+        uris = [rng.choice(pool) for _ in range(rng.randint(0, 4))]
+        ops = [(rng.choice(['add', 'remove', 'remove']), rng.choice(pool)) for _ in range(rng.randint(1, 5))]
+        ks = present_after(uris, ops)
+        qs = sorted(set(ks + pool[:2] + [s for u in pool for s in spec_shorthands(u.split('?')[0])]))
+        cases.append((uris, ops, rng.choice(qs)))
+    calls = [[4, [u.encode() for u in uris], [[0 if o == 'add' else 1, u.encode()] for o, u in ops], key.encode()] for uris, ops, key in cases]
+    outs = ctx.model.batch(calls) if ctx.model else [None] * len(cases)
+    for (uris, ops, key), mo in zip(cases, outs):
+        case = {'uris': uris, 'ops': [list(o) for o in ops], 'key': key}
+        im = impl_history(uris, ops, key); sp = spec_lookup(present_after(uris, ops), key)
+        ctx.count(case, nontrivial=True, key=['hist', uris, ops, key]); ctx.hist('history_outcome', im[0])
+        if mo is not None and model_decode(mo) != im:
+            ctx.disagree(case, model_decode(mo), im, 'Caps.caps_after/getitem vs Capabilities add/remove/__getitem__', theorem='C08_history')
+        if im != sp:
+            ctx.fail(case, 'after the history %r on %r, lookup of %r: implementation %r, property says %r' % (ops, uris, key, im, sp),
                      sig=None, expected=sp, actual=im)
 
 def search(ctx, seeds):
@@ -181,10 +236,18 @@ def search(ctx, seeds):
 
 def reproduce(finding):
     w = finding['witness']
+    if 'ops' in w:
+        ops = [tuple(o) for o in w['ops']]
+        return impl_history(w['uris'], ops, w['key']) != spec_lookup(present_after(w['uris'], ops), w['key'])
     return impl_lookup(w['uris'], w['key']) != spec_lookup(w['uris'], w['key'])
 
 def replay(doc):
     c = doc['case']
+    if 'ops' in c:
+        ops = [tuple(o) for o in c['ops']]
+        im, sp = impl_history(c['uris'], ops, c['key']), spec_lookup(present_after(c['uris'], ops), c['key'])
+        print('case     :', c); print('expected :', sp); print('actual   :', im)
+        return im == sp
     im, sp = impl_lookup(c['uris'], c['key']), spec_lookup(c['uris'], c['key'])
     print('case     :', c); print('expected :', sp); print('actual   :', im)
     return im == sp
